@@ -579,6 +579,12 @@ fn run_case(gen: &str, _index: u64, seed: u64, tier: Tier, rep: &mut Report) {
             evaluate(&c, &r, rep, "Bytes");
         }
         "exchange_big_body" => {
+            if tier == Tier::Lite {
+                // the lite tier runs under Miri / sanitizers: 64 KiB through 1-byte chunks takes
+                // the interpreter half an hour; the small exchanges drive the same code
+                rep.count("big_body_skipped_in_lite_tier");
+                return;
+            }
             let o = GenOpts {
                 max_body: 64 * 1024,
                 ..Default::default()
@@ -599,7 +605,7 @@ fn run_case(gen: &str, _index: u64, seed: u64, tier: Tier, rep: &mut Report) {
         }
         "exchange_segbuf" => {
             let o = GenOpts {
-                max_body: 6000,
+                max_body: if tier == Tier::Lite { 300 } else { 6000 },
                 ..Default::default()
             };
             let c = gen_case(&mut rng, &o, 2);
